@@ -270,6 +270,8 @@ type World struct {
 	extra    map[string]interface{}
 	byzProposals []*Msg
 	tainted  bool
+	hold     func(f *Flight) bool
+	dir      *director
 }
 
 func (w *World) ev(format string, args ...interface{}) {
@@ -301,7 +303,7 @@ func (w *World) violate(prop, oracle, format string, args ...interface{}) {
 	if !w.checks(prop) {
 		return
 	}
-	if w.cfg.Known[oracle] {
+	if ing, listed := w.cfg.Known[oracle]; listed && (ing == "" || w.used[ing]) {
 		// a listed known finding surfaced through a path the generator did not filter: count it, end the run,
 		// judge nothing that follows from it
 		w.stats.KnownHits[oracle]++
